@@ -353,17 +353,14 @@ impl Engine for C08 {
         let full = phase.param["full"].as_bool().unwrap();
         let space = Space::new(k, full);
         let total = space.count();
-        let mut idx = match sink.mode {
-            Mode::Describe(i) => i,
-            Mode::Run => sink.shard,
-        };
+        let mut idx = sink.single().unwrap_or(sink.shard);
         while idx < total {
             if sink.expired() {
                 break;
             }
             let p = space.program(idx);
             sink.visit(idx, || c02::program_json(&p, &print(&p).texts), |_| judge(&p));
-            if let Mode::Describe(_) = sink.mode {
+            if sink.single().is_some() {
                 break;
             }
             idx += sink.nshards;
